@@ -124,6 +124,7 @@ package storage
 //@     modifies kvmap(self)[str(arg0)], exhausted(self), rep(self)
 //@     ensures forall k string :: k != str(arg0) ==> has(kvmap(self), k) == old(has(kvmap(self), k)) && kvmap(self)[k] == old(kvmap(self)[k])   // C09.layer-delete
 //@     ensures err == nil ==> has(kvmap(self), str(arg0)) && tomb(kvmap(self)[str(arg0)])            // C09.layer-delete
+//@     ensures !result0 ==> err != nil                                                                  // C09.layer-delete
 //@     ensures old(wfl(self)) ==> wfl(self)                                                            // C09.wf
 //@     ensures err != nil ==> old(exhausted(self)) && has(kvmap(self), str(arg0)) == old(has(kvmap(self), str(arg0))) && kvmap(self)[str(arg0)] == old(kvmap(self)[str(arg0)])   // C09.layer-delete
 
@@ -327,12 +328,15 @@ package storage
 //@   ensures err == nil && !tomb(value) ==> vHas(s) == old(vHas(s))[str(key) := true] && vVal(s) == old(vVal(s))[str(key) := value]   // C09.write-visible
 //@   ensures err != nil ==> vHas(s) == old(vHas(s)) && vVal(s) == old(vVal(s)) && bHas(s) == old(bHas(s)) && bVal(s) == old(bVal(s))   // C09.write-visible
 //@   ensures old(sessOpen(s)) ==> bHas(s) == old(bHas(s)) && bVal(s) == old(bVal(s))                          // C09.session-isolated
+//@   ensures old(sessOpen(s)) && !tomb(value) ==> err == nil && vHas(s) == old(vHas(s))[str(key) := true] && vVal(s) == old(vVal(s))[str(key) := value] && exhausted(s.cache) == old(exhausted(s.cache))   // C09.write-visible-session
 //@   ensures sessOpen(s) == old(sessOpen(s)) && wfState(s)                                                    // C09.wf
 
 //@ func (*State).Delete
 //@   requires wfState(s)
 //@   modifies kvmap(s.cache)[str(key)], kvmap(s.txSession)[str(key)], exhausted(s.cache), exhausted(s.txSession), rep(s.cache), rep(s.txSession), vHas(s), vVal(s), bHas(s), bVal(s)
 //@   ensures err == nil && !old(exhausted(s.cache)) ==> vHas(s) == old(vHas(s))[str(key) := false]            // C09.deleted-absent
+//@   ensures !result0 ==> err != nil                                                                          // C09.layer-delete
+//@   ensures old(sessOpen(s)) ==> err == nil && vHas(s) == old(vHas(s))[str(key) := false] && exhausted(s.cache) == old(exhausted(s.cache))   // C09.deleted-absent-session
 //@   ensures old(sessOpen(s)) ==> bHas(s) == old(bHas(s)) && bVal(s) == old(bVal(s))                          // C09.session-isolated
 //@   ensures sessOpen(s) == old(sessOpen(s)) && wfState(s)                                                    // C09.wf
 
@@ -388,3 +392,8 @@ package storage
 //@ assume func (*State).GetPrevious
 //@   modifies nothing
 //@   ensures result == verVal(s.cs)[s.cs.Version - num][str(key)]
+
+//@ func (State).Version
+//@   requires s.cs != nil
+//@   modifies nothing
+//@   ensures result == s.cs.Version      // C09.version
